@@ -3,6 +3,7 @@ package conan
 import (
 	"fmt"
 	"regexp"
+	"strconv"
 	"strings"
 )
 
@@ -242,41 +243,17 @@ func (r *VersionRange) tildeMatch(version, constraint *Version) bool {
 		return false
 	}
 
-	// For Conan, tilde allows changes in the last specified part
-	// ~1.2.3 allows 1.2.3, 1.2.4, 1.2.5, etc. but not 1.3.0
-	// ~1.2 allows 1.2.0, 1.2.1, etc. but not 1.3.0
-	// ~1 allows 1.0.0, 1.1.0, 1.2.0, etc. but not 2.0.0
+	// For Conan, tilde allows changes in the last specified part:
+	// ~1 := >=1 <2, ~1.2 := >=1.2 <1.3, ~1.2.3 := >=1.2.3 <1.3
 	if len(constraint.parts) == 0 {
 		return true
 	}
 
-	// For tilde, behavior depends on number of parts in constraint:
-	// ~1 means major=1 must match (anything 1.x.x)
-	// ~1.2 means major=1 AND minor=2 must match (anything 1.2.x)
-	// ~1.2.3 means major=1 AND minor=2 must match (anything 1.2.x)
-
-	switch len(constraint.parts) {
-	case 1: // ~1 := >=1.0.0 <2.0.0
-		// Only major needs to match
-		vPart := "0"
-		if len(version.parts) > 0 {
-			vPart = version.parts[0]
-		}
-		return vPart == constraint.parts[0]
-
-	default: // ~1.2, ~1.2.3, etc. mean major and minor must match
-		// Major and minor must match for constraints with 2 or more parts.
-		for i := 0; i < 2; i++ {
-			vPart := "0"
-			if i < len(version.parts) {
-				vPart = version.parts[i]
-			}
-			if vPart != constraint.parts[i] {
-				return false
-			}
-		}
-		return true
+	idx := 1
+	if len(constraint.parts) == 1 {
+		idx = 0
 	}
+	return belowBumped(version, constraint.parts, idx)
 }
 
 // caretMatch implements caret (^) constraint logic
@@ -287,55 +264,50 @@ func (r *VersionRange) caretMatch(version, constraint *Version) bool {
 	}
 
 	// For Conan, caret allows changes that don't modify the left-most non-zero digit
-	// e.g., ^1.2.3 allows 1.2.3 to 1.x.x but not 2.0.0
-	// ^0.2.3 allows 0.2.3 to 0.2.x but not 0.3.0
+	// ^1.2.3 := >=1.2.3 <2, ^0.2.3 := >=0.2.3 <0.3, ^0.0.3 := >=0.0.3 <0.1
 	if len(constraint.parts) == 0 {
 		return true
 	}
 
-	// Caret allows compatible changes based on the highest precedence non-zero component
-	// ^1.2.3 allows 1.x.x (major is significant)
-	// ^0.2.3 allows 0.2.x (minor is significant since major=0)
-	// ^0.0.3 allows 0.0.x (patch is significant since major=0 and minor=0)
-
-	// Determine which components must match exactly
-	if len(constraint.parts) >= 1 && constraint.parts[0] != "0" {
-		// Major is non-zero, so major must match
-		vPart := "0"
-		if len(version.parts) > 0 {
-			vPart = version.parts[0]
-		}
-		return vPart == constraint.parts[0]
-	} else if len(constraint.parts) >= 2 && constraint.parts[1] != "0" {
-		// Major is zero but minor is non-zero, so major and minor must match
-		for i := 0; i < 2; i++ {
-			vPart := "0"
-			if i < len(version.parts) {
-				vPart = version.parts[i]
-			}
-			cPart := "0"
-			if i < len(constraint.parts) {
-				cPart = constraint.parts[i]
-			}
-			if vPart != cPart {
-				return false
-			}
-		}
-		return true
-	} else {
-		// Major and minor are both zero, all parts must match except the last can vary
-		// For ^0.0.3, parts 0 and 1 must be "0", part 2 can be >= 3
-		for i := 0; i < len(constraint.parts)-1; i++ {
-			vPart := "0"
-			if i < len(version.parts) {
-				vPart = version.parts[i]
-			}
-			if vPart != constraint.parts[i] {
-				return false
-			}
-		}
-		return true
+	idx := 0
+	switch {
+	case !isZeroPart(constraint.parts[0]):
+		idx = 0
+	case len(constraint.parts) >= 2 && !isZeroPart(constraint.parts[1]):
+		idx = 1
+	case len(constraint.parts) >= 2:
+		// Major and minor are both zero: everything but the last part is fixed
+		idx = len(constraint.parts) - 2
 	}
+	return belowBumped(version, constraint.parts, idx)
+}
+
+// isZeroPart reports whether a version part is numerically zero ("0", "00")
+func isZeroPart(part string) bool {
+	return part != "" && strings.Trim(part, "0") == ""
+}
+
+// belowBumped reports whether version sorts below the exclusive upper bound obtained by
+// keeping parts[:idx], incrementing the number in parts[idx] and dropping the rest.
+// The bound carries the lowest possible prerelease ("-0") so that prereleases of the
+// bound itself stay outside, and membership depends on the version's order only.
+func belowBumped(version *Version, parts []string, idx int) bool {
+	num := extractLeadingNumber(parts[idx])
+	if num == "" {
+		// Nothing numeric to increment (e.g. "~a"): only the part itself is allowed
+		vPart := "0"
+		if idx < len(version.parts) {
+			vPart = version.parts[idx]
+		}
+		return compareVersionParts(version.parts[:min(idx, len(version.parts))], parts[:idx]) == 0 && vPart == parts[idx]
+	}
+	n, err := strconv.Atoi(num)
+	if err != nil {
+		return false
+	}
+	upperParts := append(append([]string{}, parts[:idx]...), strconv.Itoa(n+1))
+	upper := &Version{parts: upperParts, prerelease: "0"}
+	return version.Compare(upper) < 0
 }
 
 // String returns the string representation of the range
